@@ -119,10 +119,16 @@ Proof. unfold init_suffix. rewrite map_length, seq_length. reflexivity. Qed.
 
 (** ---- one loop iteration ------------------------------------------------------------------ *)
 (** an iteration for another compound does not touch the isotopomers of c *)
-Lemma init_step_other (lv : label_vars) (init : init_labels) (vars : list (lname * Z))
+Lemma init_target_comp (ik : init_name_kind) (k : N) (q : list bool) : comp_is k (init_target_name ik k q).
+Proof.
+  destruct ik; cbn [init_target_name]; try (right; exists q; reflexivity).
+  destruct q as [|b q]; cbn [iso_name]; [left; reflexivity|right; eexists; reflexivity].
+Qed.
+
+Lemma init_step_other (ik : init_name_kind) (lv : label_vars) (init : init_labels) (vars : list (lname * Z))
       (c k : N) (x : Z) (bits : list bool) :
   k <> c ->
-  getL (iso_name c bits) (init_step lv init vars (k, x)) = getL (iso_name c bits) vars.
+  getL (iso_name c bits) (init_step ik lv init vars (k, x)) = getL (iso_name c bits) vars.
 Proof.
   intro Hkc. unfold init_step. cbn [fst snd]. cbv zeta. rewrite getN_isotopomers.
   assert (Hnot : forall nm, comp_is k nm -> iso_name c bits <> nm).
@@ -134,8 +140,8 @@ Proof.
       apply (Hnot (iso_name c bits)); [|reflexivity]. apply (gen_binary_comp k m). exact Hin. }
     destruct (getN k init) as [il|].
     + unfold getL, setL in *. rewrite dict_get_set.
-      destruct (lname_eq_dec (iso_name c bits) (LIso k (init_suffix (nlab lv k) (positions_of il)))) as [E|NE].
-      * exfalso. apply (Hnot _ (or_intror (ex_intro _ _ eq_refl)) E).
+      destruct (lname_eq_dec (iso_name c bits) (init_target_name ik k (init_suffix (nlab lv k) (positions_of il)))) as [E|NE].
+      * exfalso. apply (Hnot _ (init_target_comp ik k _) E).
       * exact Hfold.
     + unfold getL, setL in *. rewrite dict_get_set.
       destruct (lname_eq_dec (iso_name c bits) (hd (LPlain k) (gen_binary k m))) as [E|NE].
@@ -146,9 +152,9 @@ Proof.
     exfalso. apply (Hnot _ (or_introl eq_refl) E).
 Qed.
 
-Lemma steps_other (lv : label_vars) (init : init_labels) (c : N) (bits : list bool) (l : list (N * Z)) :
+Lemma steps_other (ik : init_name_kind) (lv : label_vars) (init : init_labels) (c : N) (bits : list bool) (l : list (N * Z)) :
   forall vars, ~ In c (map fst l) ->
-    getL (iso_name c bits) (fold_left (init_step lv init) l vars) = getL (iso_name c bits) vars.
+    getL (iso_name c bits) (fold_left (init_step ik lv init) l vars) = getL (iso_name c bits) vars.
 Proof.
   induction l as [|[k x] r IH]; intros vars Hn; cbn [fold_left]; [reflexivity|].
   rewrite IH.
@@ -172,12 +178,12 @@ Proof.
   - apply fold_set_const_in. exact Hin.
 Qed.
 
-Lemma init_step_self (lv : label_vars) (init : init_labels) (vars : list (lname * Z))
+Lemma init_step_self (ik : init_name_kind) (lv : label_vars) (init : init_labels) (vars : list (lname * Z))
       (c : N) (v : Z) (n : nat) (bits : list bool) :
   getN c lv = Some n ->
-  (0 < n \/ getN c init = None) ->
+  (ik = InitIsoName \/ 0 < n \/ getN c init = None) ->
   length bits = n ->
-  getL (iso_name c bits) (init_step lv init vars (c, v)) =
+  getL (iso_name c bits) (init_step ik lv init vars (c, v)) =
   Some (if list_eq_dec Bool.bool_dec bits
              (match getN c init with
               | None => repeat false n
@@ -187,10 +193,13 @@ Lemma init_step_self (lv : label_vars) (init : init_labels) (vars : list (lname 
 Proof.
   intros Hn Hg Hb. unfold init_step. cbn [fst snd]. cbv zeta. rewrite getN_isotopomers, Hn.
   destruct (getN c init) as [il|] eqn:Hi.
-  - assert (Hpos : 0 < n) by (destruct Hg as [Hg|Hg]; [exact Hg|discriminate]).
-    unfold nlab. rewrite Hn.
-    rewrite <- (iso_name_nonempty c (init_suffix n (positions_of il)))
-      by (rewrite init_suffix_length; exact Hpos).
+  - unfold nlab. rewrite Hn.
+    assert (Hname : init_target_name ik c (init_suffix n (positions_of il)) = iso_name c (init_suffix n (positions_of il))).
+    { destruct Hg as [->|[Hpos|Hg]]; [reflexivity| |discriminate].
+      rewrite (iso_name_nonempty c (init_suffix n (positions_of il))) by (rewrite init_suffix_length; exact Hpos).
+      destruct ik; cbn [init_target_name]; try reflexivity.
+      apply iso_name_nonempty. rewrite init_suffix_length. exact Hpos. }
+    rewrite Hname.
     apply step_self_gen. apply iso_in_gen_binary. exact Hb.
   - rewrite hd_gen_binary. apply step_self_gen. apply iso_in_gen_binary. exact Hb.
 Qed.
@@ -223,28 +232,28 @@ Proof.
 Qed.
 
 (** ---- the theorem --------------------------------------------------------------------------------- *)
-Theorem totals_preserved :
-  forall (lv : label_vars) (init : init_labels) (bvars : list (N * Z)) (c : N) (v : Z) (n : nat),
+Theorem totals_preserved_gen :
+  forall (ik : init_name_kind) (lv : label_vars) (init : init_labels) (bvars : list (N * Z)) (c : N) (v : Z) (n : nat),
     NoDup (map fst bvars) ->                 (* get_initial_conditions() is a dict *)
     NoDup (map fst lv) ->                    (* label_variables is a dict *)
     In (c, v) bvars ->
     getN c lv = Some n ->
-    (0 < n \/ getN c init = None) ->         (* the guard *)
+    (ik = InitIsoName \/ 0 < n \/ getN c init = None) ->         (* the guard *)
     let target := match getN c init with
                   | None => repeat false n
                   | Some il => init_suffix n (positions_of il)
                   end in
     (forall bits, length bits = n ->
-       getL (iso_name c bits) (build_vars lv init bvars) = Some (if list_eq_dec Bool.bool_dec bits target then v else 0%Z))
-    /\ sumZ (map (fun bits => match getL (iso_name c bits) (build_vars lv init bvars) with Some x => x | None => 0%Z end)
+       getL (iso_name c bits) (build_vars ik lv init bvars) = Some (if list_eq_dec Bool.bool_dec bits target then v else 0%Z))
+    /\ sumZ (map (fun bits => match getL (iso_name c bits) (build_vars ik lv init bvars) with Some x => x | None => 0%Z end)
                  (all_patterns n)) = v
     /\ length target = n.
 Proof.
-  intros lv init bvars c v n Hnd _ Hin Hn Hg target.
+  intros ik lv init bvars c v n Hnd _ Hin Hn Hg target.
   assert (Hlen : length target = n).
   { unfold target. destruct (getN c init) as [il|]; [apply init_suffix_length|apply repeat_length]. }
   assert (Hall : forall bits, length bits = n ->
-            getL (iso_name c bits) (build_vars lv init bvars)
+            getL (iso_name c bits) (build_vars ik lv init bvars)
             = Some (if list_eq_dec Bool.bool_dec bits target then v else 0%Z)).
   { intros bits Hb. destruct (in_split _ _ Hin) as [l1 [l2 Hs]].
     rewrite Hs in Hnd. rewrite map_app in Hnd. cbn [map fst] in Hnd. apply NoDup_remove_2 in Hnd.
@@ -258,4 +267,42 @@ Proof.
   - intros bits Hb. rewrite Hall; [reflexivity|]. apply all_patterns_length. exact Hb.
 Qed.
 
-Print Assumptions totals_preserved.
+
+(** the repaired tree: no guard *)
+Theorem totals_preserved_full :
+  forall (lv : label_vars) (init : init_labels) (bvars : list (N * Z)) (c : N) (v : Z) (n : nat),
+    NoDup (map fst bvars) -> NoDup (map fst lv) -> In (c, v) bvars -> getN c lv = Some n ->
+    let target := match getN c init with
+                  | None => repeat false n
+                  | Some il => init_suffix n (positions_of il)
+                  end in
+    (forall bits, length bits = n ->
+       getL (iso_name c bits) (build_vars InitIsoName lv init bvars) = Some (if list_eq_dec Bool.bool_dec bits target then v else 0%Z))
+    /\ sumZ (map (fun bits => match getL (iso_name c bits) (build_vars InitIsoName lv init bvars) with Some x => x | None => 0%Z end)
+                 (all_patterns n)) = v
+    /\ length target = n.
+Proof.
+  intros lv init bvars c v n H1 H2 H3 H4.
+  exact (totals_preserved_gen InitIsoName lv init bvars c v n H1 H2 H3 H4 (or_introl eq_refl)).
+Qed.
+
+(** the tree before the repair (raw "__" + pattern name): only under the guard *)
+Theorem totals_preserved_raw :
+  forall (lv : label_vars) (init : init_labels) (bvars : list (N * Z)) (c : N) (v : Z) (n : nat),
+    NoDup (map fst bvars) -> NoDup (map fst lv) -> In (c, v) bvars -> getN c lv = Some n ->
+    (0 < n \/ getN c init = None) ->
+    let target := match getN c init with
+                  | None => repeat false n
+                  | Some il => init_suffix n (positions_of il)
+                  end in
+    (forall bits, length bits = n ->
+       getL (iso_name c bits) (build_vars InitRawSuffix lv init bvars) = Some (if list_eq_dec Bool.bool_dec bits target then v else 0%Z))
+    /\ sumZ (map (fun bits => match getL (iso_name c bits) (build_vars InitRawSuffix lv init bvars) with Some x => x | None => 0%Z end)
+                 (all_patterns n)) = v
+    /\ length target = n.
+Proof.
+  intros lv init bvars c v n H1 H2 H3 H4 Hg.
+  exact (totals_preserved_gen InitRawSuffix lv init bvars c v n H1 H2 H3 H4 (or_intror Hg)).
+Qed.
+
+Print Assumptions totals_preserved_gen.
